@@ -627,6 +627,25 @@ func c10Refusals(r *Run) {
 		{"Signature-unsigned", &cose.Signature{Headers: hdr(), Signature: emptySig}},
 		{"Countersignature-unsigned", &cose.Countersignature{Headers: hdr(), Signature: emptySig}},
 	}
+	if t.Bool(1, 3, "c10.ref.failed-signing") {
+		// parents whose signing FAILED: the application's signer answered with
+		// bytes and an error (a device that reports a fault after it filled
+		// the output buffer).  Sign said no, so the object is not signed - as
+		// a parent it is refused like one that was never signed.
+		failing := &SpySigner{Inner: r.signerFor(key, false), Alg: cose.Algorithm(key.Alg), Fault: "bytes+err", Tag: "parent"}
+		parent := &cose.Sign1Message{Headers: hdr(), Payload: []byte("p"), Signature: sig}
+		fm := &cose.Sign1Message{Headers: hdr(), Payload: []byte("p")}
+		fs := &cose.Signature{Headers: hdr()}
+		fc := &cose.Countersignature{Headers: hdr()}
+		var e1, e2, e3 error
+		r.Lib(func() { e1 = fm.Sign(ent, nil, failing) })
+		r.Lib(func() { e2 = fs.Sign(ent, failing, []byte{0x40}, []byte("p"), nil) })
+		r.Lib(func() { e3 = fc.Sign(ent, failing, parent, nil) })
+		r.Fired("signer.bytes+err")
+		if e1 != nil && e2 != nil && e3 != nil {
+			cands = []cand{{"Sign1-signing-failed", fm}, {"Signature-signing-failed", fs}, {"Countersignature-signing-failed", fc}}
+		}
+	}
 	c := cands[t.Choose(len(cands), "c10.ref.cand")]
 	arg := c.arg
 	if t.Bool(1, 2, "c10.byvalue") {
